@@ -153,6 +153,12 @@ fn robustness_script(t: &mut Tape) -> Script {
         s.service_url = gen_junk_url(t);
         s.junk_service_url = true;
     }
+    // policy answers at the edge of their types: minimum waits that stand for 'for ever'
+    for k in 0..s.timings.len() {
+        if t.chance(1, 6) {
+            s.timings[k].min_wait_ms = Some(u64::MAX - t.choose(3) as u64);
+        }
+    }
     // stored values of any type and magnitude
     for key in STORED_KEYS {
         if t.chance(1, 3) {
@@ -280,6 +286,9 @@ pub fn case(t: &mut Tape, ctx: &CaseCtx) -> CaseResult {
         }
         if jumps {
             classes.push("clock_jump");
+        }
+        if script.timings.iter().any(|x| matches!(x.min_wait_ms, Some(m) if m >= u64::MAX - 2)) {
+            classes.push("policy_minimum_wait_for_ever");
         }
         if script.service_url != "http://omaha.test/" {
             classes.push("odd_service_url");
